@@ -287,6 +287,11 @@ def _oracle_decimal(im: Impl, case, v, d, text):
                 return (_sig(kind, "sign", v, style), f"{case}: {text!r} shows a sign under the RED style")
         elif shown_neg != want_neg:
             return (_sig(kind, "sign", v, style), f"{case}: {text!r} sign does not match the value")
+        elif want_neg:
+            # documented decoration: MINUS -> minus sign; PARENTHESES styles and accounting -> parentheses
+            parens = ns >= 2 or (kind == "cur" and acct)
+            if parens != ("(" in body) or parens == ("-" in body):
+                return (_sig(kind, "negative-style", v, style), f"{case}: {text!r} does not follow negative style {ns}")
     elif shown_neg and not want_neg and not (v == 0 and str(v).startswith("-")):
         return (_sig(kind, "sign", v, style), f"{case}: {text!r} negative zero for a non-negative value")
     return None
